@@ -40,6 +40,8 @@ type PkgReport struct {
 	Files          []string `json:"files,omitempty"` // names emitted by protoc-gen-fastmarshal
 	DuplicateNames []string `json:"duplicate_names,omitempty"`
 	BadNames       []string `json:"bad_names,omitempty"`
+	// MultiFile: result of generating the unit's dependency file and its main file in ONE request ("" = not tried / same output)
+	MultiFile string `json:"multi_file,omitempty"`
 	Deterministic  bool     `json:"deterministic"`
 	ParseErrors    []string `json:"parse_errors,omitempty"`
 	CompileOK      bool     `json:"compile_ok"`
@@ -238,6 +240,31 @@ func generate(j *job, out, fm, gogoBin, goBin string) {
 	rep.Deterministic = bytes.Equal(r1.Raw, r2.Raw)
 	if rep.FastError != "" {
 		return
+	}
+	if in.DepPath != "" {
+		// protoc hands a plug-in all files of one invocation in one request: the files emitted for the main file
+		// must not depend on what else is generated in the same request
+		r3 := plugindrv.Run(fm, in.AllFiles(), []string{in.DepPath, in.ProtoPath}, in.FastParam())
+		switch {
+		case r3.ExecErr != nil:
+			rep.MultiFile = "plug-in crashed on a request with two files to generate: " + r3.ExecErr.Error() + " " + clip(r3.Stderr)
+		case r3.Response.Error != nil:
+			rep.MultiFile = "plug-in failed on a request with two files to generate: " + r3.Response.GetError()
+		default:
+			got := map[string]string{}
+			for _, f := range r3.Response.File {
+				got[f.GetName()] = f.GetContent()
+			}
+			for _, f := range r1.Response.File {
+				if c, ok := got[f.GetName()]; !ok {
+					rep.MultiFile = "file " + f.GetName() + " is missing when the dependency is generated in the same request"
+					break
+				} else if c != f.GetContent() {
+					rep.MultiFile = "content of " + f.GetName() + " differs when the dependency is generated in the same request"
+					break
+				}
+			}
+		}
 	}
 	seen := map[string]bool{}
 	prefix := strings.TrimSuffix(in.ProtoPath, ".proto")
